@@ -272,6 +272,8 @@ def euler_step_induction(c, method, n=2):
     import ast, inspect, textwrap
     body_ast = ast.parse(textwrap.dedent(inspect.getsource(src_fn))).body[0].body
     ifs = [i for i, st in enumerate(body_ast) if isinstance(st, ast.If)]
+    if len(ifs) < 2:         # solve() no longer has one top-level `if` per scheme (e.g. re-organised into if / else): this decomposition does not apply - undecided
+        raise loops.StaleAnchor(f"TimeDependentLinearPDE.solve has {len(ifs)} top-level `if` statement(s); the contract cuts the loop inside the second one")
     which = ifs[0] if method == 'forward_euler' else ifs[1]
     pre, cond, body, post, names, info = loops.split_loop(src_fn, 0, container=[which])
     U = c.vec('U', n * K).reshape(n, K)          # arbitrary stored levels
